@@ -314,13 +314,20 @@ def c16(run, args):
     # the implementation-shaped model of the path an after-event takes (DispatcherImpl.tla: lanes per listener name, drain
     # goroutines): C16's statements hold on it as written; each named deviation (the code before a67b2b3 and three seeded
     # changes) must make TLC find its predicted failure
-    disp_cfg = lambda msgs, pe, re_, sn, sb: ("SPECIFICATION Spec\nCONSTANTS\n  Msgs = {%s}\n  PerEvent = %s\n  RetireEarly = %s\n  SplitNames = %s\n  SharedBatch = %s\n"
+    disp_cfg = lambda msgs, pe, re_, sn, sb: ("SPECIFICATION Spec\nCONSTANTS\n  Msgs = {%s}\n  PerEvent = %s\n  RetireEarly = %s\n  SplitNames = %s\n  SharedBatch = %s\n  DropBeyond = 0\n"
                                               "INVARIANTS NoOverlap InOrderOnce StoredBeforeDeleted NothingLost NoStranded\nCHECK_DEADLOCK FALSE\n" % (msgs, pe, re_, sn, sb))
     F, T = "FALSE", "TRUE"
     run.model_check("DispatcherImpl", disp_cfg("1, 2, 3" if quick else "1, 2, 3, 4", F, F, F, F), label="DispatcherImpl (as written)", workers=4)
-    live_cfg = lambda sb: ("SPECIFICATION FairSpec\nCONSTANTS\n  Msgs = {1, 2}\n  PerEvent = FALSE\n  RetireEarly = FALSE\n  SplitNames = FALSE\n  SharedBatch = %s\n"
+    live_cfg = lambda sb: ("SPECIFICATION FairSpec\nCONSTANTS\n  Msgs = {1, 2}\n  PerEvent = FALSE\n  RetireEarly = FALSE\n  SplitNames = FALSE\n  SharedBatch = %s\n  DropBeyond = 0\n"
                            "PROPERTIES EventuallyHandled\nCHECK_DEADLOCK FALSE\n" % sb)
     run.model_check("DispatcherImpl", live_cfg(F), label="DispatcherImpl liveness: EventuallyHandled", workers=2)
+    # a bounded lane that drops its oldest call (seeded C16i; the histories replayed on the real code are too short to fill a lane of
+    # 1024, so this deviation is covered by the model only): TLC must find an event that is never handed over
+    rc, out, dt = run.tlc("DispatcherImpl", disp_cfg("1, 2", F, F, F, F).replace("DropBeyond = 0", "DropBeyond = 1"), workers=4, timeout=600, heap="4g")
+    dropped = [x for x in ("InOrderOnce", "NothingLost", "StoredBeforeDeleted") if ("Invariant %s is violated" % x) in out]
+    run.cov["stages"].append({"stage": "model-check", "module": "DispatcherImpl(DropBeyond=1)", "mode": "prediction", "violated_as_predicted": dropped, "wall_s": round(dt, 1)})
+    if not dropped:
+        raise Inconclusive("the deviation DropBeyond of DispatcherImpl no longer produces its predicted failure: model and check have drifted apart")
     rc, out, dt = run.tlc("DispatcherImpl", live_cfg(T), workers=2, timeout=600, heap="4g")
     lost = "Temporal property EventuallyHandled was violated" in out
     run.cov["stages"].append({"stage": "model-check", "module": "DispatcherImpl liveness (SharedBatch=TRUE)", "mode": "prediction", "violated_as_predicted": ["EventuallyHandled"] if lost else [], "wall_s": round(dt, 1)})
